@@ -3,6 +3,7 @@ LC_HEADER = ('From LC Require Import Lib.Bytes Model.MountInfo Model.FsTree Mode
 PROP = dict(
     go='c03', n_quick=200, n_thorough=2000,
     coq_header=LC_HEADER,
+    referee='cdom', referee_quick=3, referee_thorough=40,
     case_type='LC.case', verdict='C03.verdict',
     rule='umount L / umount -all / umount on mounted stacks with manual recursive binds below build roots, stacked host submounts and random process users; non-trivial: an umount step issues a syscall',
     explanation='per step Coq evaluates: model step = observed step (result class, operation log, file tree, kernel table, '
